@@ -206,12 +206,17 @@ class Names:
         # target-key field: the other state attribute the advance stores
         self.target = None
         stored = set()
+        other_objects = set()
         for s_ in own_nodes(adv.node):
             if isinstance(s_, ast.Assign):
                 for t in s_.targets:
                     for x in ast.walk(t):
                         if isinstance(x, ast.Attribute) and isinstance(x.ctx, ast.Store):
                             stored.add(x.attr)
+                            if not (norm(x.value) in ("state", "self._state") or norm(x.value).endswith("._state")):
+                                other_objects.add(x.attr)
+        if len(stored - other_objects - {self.live, self.value, self.key}) == 1:
+            stored -= other_objects  # (a field of some other object - a group - written on the way is not the state's target key)
         stored -= {self.live, self.value, self.key}  # (the live-group field; the fields the pulling step publishes)
         if len(stored) == 1:
             self.target = stored.pop()
